@@ -30,6 +30,80 @@ CLAIMED = {
    text="Every generated text is lexed and each token checked against a predicate derived from the source only (sub-slice, order, ignorable gaps, start/end line+byte column, payload = spelling, keyword class = alias table). ~1.5M texts per profile in the quick tier.",
    note="the predicate transcribes the statement; alias table transcribed from KEYWORDS; end positions of tokens ending in a line break are exempt as the statement says",
    ref="5/C12"),
+ "C04": dict(
+   technique="property-based testing: differential against an independent reference interpreter on generated nested if/while/until/break/continue programs; non-termination decided by an exec-fuel hook",
+   text="150k (quick) generated control-flow programs per profile (nested if/else incl. empty branches, counter-guarded and free-form while/until, break/continue in both spellings from any if depth, conditions of every value kind, an erroring statement at a random point) are executed by rrss and by the reference model; printed markers and success/error must be identical; an rrss run using more than 10x the model's steps is a non-termination verdict.",
+   note="reference model (DESIGN Appendix A); break/continue outside loops never generated (unspecified); free-form loops beyond 2000 model steps are discarded and counted",
+   ref="5/C04"),
+ "C05": dict(
+   technique="property-based testing: differential against an independent reference interpreter on generated function/scope/pronoun programs with expected-failure probes",
+   text="120k (quick) programs per profile with 1-4 functions of all name kinds, recursion, returns from inside loops/ifs, shadowing, scope-sensitive idioms, pronoun reads/writes and one expected-failure probe (pronoun after block/call, dead local, wrong arity, call of a variable, unknown name) in half of them; stdout and success/error must equal the reference model's under both scope readings.",
+   note="the statement's 'enclosing scope' is read both dynamically (rrss) and lexically; only programs whose meaning is the same under both are judged (skips counted)",
+   ref="5/C05"),
+ "C06": dict(
+   technique="property-based testing: model-based stateful testing; generated operation histories over four array variables interpreted by a deep-copy reference model, full state dump after every mutating step",
+   text="100k (quick) histories per profile of 1-14 operations (nested element writes with every index/key kind, element stores of copies, rock/roll in every form, whole-variable copies, by-value argument passing to a mutating function, arithmetic/comparison/printing of arrays, error candidates); after each mutating step all four variables are dumped and compared with the model, so any aliasing between copies shows as a differing dump.",
+   note="reference model with deep-copy values; arrays <= 64 elements, indices <= 40",
+   ref="5/C06"),
+ "C07": dict(
+   technique="property-based testing: differential against a reference implementation of split/join/cast/round over generated operands, parameters and destinations",
+   text="80k (quick) programs per profile of 1-4 cut/join/cast/turn steps on variables, array elements and pronouns, with and without `into` and `with`, over strings (empty, multi-byte, delimiters at ends/overlapping, via listen), numbers (fractions, negatives, huge, NaN, code-point boundaries), all radices incl. invalid ones, arrays with non-string elements; operand, holder and destination are dumped and compared with the model (result, operand unchanged/replaced, error vs success).",
+   note="reference model with its own leftmost non-overlapping split; radix digits and f64 syntax by std (trusted)",
+   ref="5/C07"),
+ "C08": dict(
+   technique="property-based testing with fault injection: instrumented reader/writer, call log vs the reference model's I/O trace, every writer/reader fault offset enumerated per program",
+   text="100k (quick) say/listen programs x inputs per profile; each runs fault-free (the logged write/read sequence must equal the model's I/O trace) and then once per writer fault offset and per reader fault offset (all offsets when <= 64, else 64 spread): bytes received == prefix of the fault-free transcript, IOError exactly when the stream was needed beyond the fault, no read/write call after the fault, no panic.",
+   note="the instrumented reader hands out one line per read call so log order is program order; input is valid UTF-8 without CR before LF",
+   ref="5/C08"),
+ "C09": dict(
+   technique="property-based testing / crash fuzzing: type-directed wild program generator plus token-level mutations of valid programs, executed under catch_unwind with fuel/allocation hooks in debug and release profiles",
+   text="300k (quick) parser-accepted programs per profile (every statement on every value kind, shared function/variable/parameter names, boundary indices/radices/code points, degenerate poetic literals, top-level break/continue/return, invalid UTF-8 input; plus mutated repository test programs); execution must end in Ok or a RuntimeError with a non-empty message: no panic, debug assertion, or profile disagreement. All 22 RuntimeError leaf variants are reached.",
+   note="resource bound: 400 reference steps (fuel 10x) for generated programs, flat 2000 iterations+calls and 4e6 elements per allocation for mutated texts; exhaustion is out of the property's bound and counted",
+   ref="5/C09"),
+ "C10": dict(
+   technique="property-based testing: metamorphic 'run it again' relation across fresh hasher keys (same thread, fresh threads, fresh processes), generator aimed at dictionary-order leaks",
+   text="20k (quick) programs per profile, 60% building arrays with 2-6 non-numeric keys and then joining/printing/comparing/erring on them; each (source, input) is parsed, linted and run 6 times in one thread and in 2 fresh threads, and 16 batches of 150 cases are replayed in 2 fresh processes each; output bytes, result, error text and lint reports must be identical.",
+   note="hasher seeds cannot be chosen: relies on std re-keying per table/thread/process; a leak with n>=2 keys shows per pair of runs with probability >= 1/2",
+   ref="5/C10"),
+ "C11": dict(
+   technique="property-based testing: generated poetic word sequences and line texts checked against an independent digit rule (decimal numeral -> correctly rounded f64) and byte-exact string oracle",
+   text="100k (quick) poetic number literals (1-300 words, lengths incl. multiples of 10, apostrophes, stacked 's/'re suffixes, hyphens, keywords as words, periods/commas anywhere, non-ASCII), poetic strings (any line text closed on the line, followed by lines that must survive) and expression-like right-hand sides per profile; printed value and compute_value() vs the numeral spelled by the words, within the stated ulp tolerance (exact for integers < 2^53).",
+   note="bounded to <= 300 digits per side (known finding F12) and to texts whose quotes/parentheses close on the line (F11, outside the quantifier); std f64 parsing trusted",
+   ref="5/C11"),
+ "C13": dict(
+   technique="property-based testing: fault injection into generated valid programs; oracle = rejected, on the line computed from the text",
+   text="150k (quick) triples (valid generated program, statement position at any depth or EOF, one of 37 context-independent faulty lines) per profile; parse must return an error whose location and rendered text name exactly the line of the injected fault, also behind multi-line strings/comments and inside nested blocks.",
+   note="each faulty line has no valid reading wherever a statement may start (two only at top level); expected line = 1 + line breaks before the insertion point",
+   ref="5/C13"),
+ "C15": dict(
+   technique="property-based testing: metamorphic relation between a program and its injectively renamed, re-cased rendering",
+   text="60k (quick) program pairs per profile from the control-flow, function and array generators: every name mapped to a fresh name of a random kind (simple/common/proper; ASCII, accented, Greek, Cyrillic), every mention and keyword independently re-cased; both renderings must print the same bytes and end with the same success/error variant.",
+   note="letters without one-to-one per-character case mapping (final sigma, sharp s, dotless i) are outside the statement's 'ASCII and accented letters'; error texts are not compared (they quote names)",
+   ref="5/C15"),
+ "C16": dict(
+   technique="property-based testing: recording visitors over generated trees compared with an independent tree walk, every failing-callback index enumerated",
+   text="20k (quick) parsed grammar-generated trees per profile x every choice of the failing callback (all indices up to 40 events, 40 spread beyond); two recording visitors (leaf-only, and mid-level dispatching) driven by the public runner must log exactly the independent walk's sequence (each node once, reading order), fold left to right from the default, and with failure at callback k log exactly k events and return that error unchanged.",
+   note="expected order from an independent walk over public tree fields; statement-level leaves not delegated to the inner visitor cannot be observed",
+   ref="5/C16"),
+ "C17": dict(
+   technique="property-based testing: differential between the constant folders and the interpreter on generated constant / unknown / other expressions inside random preludes",
+   text="120k (quick) expressions per profile in labelled classes; whenever a folder reports a value, executing `say <expr>` after a random prelude must print exactly that value; constant-class expressions must fold to the independently computed IEEE value; expressions reading a variable, pronoun, element, call or roll must not fold.",
+   note="constant values recomputed independently with IEEE f64 arithmetic, left fold over list operands; poetic literal values are C11's subject",
+   ref="5/C17"),
+ "C18": dict(
+   technique="property-based testing: expected lint set recomputed from the generated tree; every suggestion parsed back (round trip) and executed",
+   text="80k (quick) programs per profile of assignment-like statements over constant (0 digits, fractions, negative, -0, huge, inf, NaN), string (blanks, punctuation, line breaks) and non-constant right-hand sides at every nesting depth; the constant-assignment pass must report exactly the expected statements with target, value and line; the star-words of every suggestion must spell the reported value and, for plain variables, the suggested line must parse and assign that value; values without poetic spelling get no suggestion.",
+   note="each `*` of a suggestion stands for a letter; statements spanning several lines accept any of their lines; C11 tolerance for fractions",
+   ref="5/C18"),
+ "C19": dict(
+   technique="property-based testing: independent recomputation of the repeated-identifier analysis and of the merged report order over generated, wild and mutated programs",
+   text="100k (quick) parsed programs per profile from four generators; linting must not panic, must leave the program's Debug text unchanged, must return the stable by-line merge of the per-pass reports, and the repeated-identifier reports must equal an independent recomputation over the tree in traversal order (with line and text).",
+   note="traversal order as fixed by C16; consecutive mentions never differ only in case (the statement does not say how case is compared)",
+   ref="5/C19"),
+}
+
+NA_REASON = {
+ "C20": "check under construction: subprocess differential CLI vs library (DESIGN 5/C20); not yet claimed",
 }
 
 ALL = [json.loads(l)["id"] for l in open("/verif/properties.jsonl")]
@@ -67,7 +141,7 @@ def main():
         ],
         "checks": checks,
         "notes": "All checks: exit 0 held / 1 VIOLATION line with replay / 2 inconclusive. VERIF_SEED and VERIF_TIER honoured. known findings: /verif/known_findings.json",
-        "not_applicable": [{"property_id": p, "reason": "check under construction in this session (not yet claimed)"} for p in ALL if p not in CLAIMED],
+        "not_applicable": [{"property_id": p, "reason": NA_REASON.get(p, "check under construction (not yet claimed)")} for p in ALL if p not in CLAIMED],
     }
     json.dump(m, open("/verif/MANIFEST.json", "w"), indent=1)
     print("claimed:", sorted(CLAIMED))
